@@ -1,4 +1,5 @@
 import Brax.Model.C12
+import Brax.Lemmas.C12Mom
 import Mathlib.Tactic.Ring
 import Mathlib.Tactic.FieldSimp
 import Mathlib.Tactic.Linarith
@@ -280,5 +281,268 @@ def drift_first_order_Stmt : Prop :=
   ∀ (sys : conservative generator model) (state) (horizon),
     ∃ C, ∀ dt small, |E(step_dt^(horizon/dt) state) − E state| ≤ C · dt
 -/
+
+end Brax.C12
+
+/-! ===== C12, momentum clause (`Lemmas/C12Mom.lean`) =====
+
+Everything below is about the existing model of the generalized pipeline (`Brax.Gd`, `Model/C02.lean`, tied to
+`/repo` by the C02/C05 correspondences); no new model of the code.  `treeMom`, `treeFrc`, `pointAcc`,
+`pointVel`, `lin3`, `comArm`, `bodyAng`, `traj` are specification-side definitions over the model's own
+`cinr`, `cdof`, `cd`, `cdofd`, `Gd.step`.
+
+**Proved**
+* forest level, any root `ρ` with world-axis translational rows: rows `(ρ,0..2)` of `mass.matrix·y` are the
+  linear momentum of the tree of `ρ` moving with joint velocity `y` (`mom_massRows_root`, `mom_treeMom_vel`);
+  rows `(ρ,0..2)` of `dynamics.inverse` are the linear part of the Newton–Euler force of the whole tree
+  (`mom_biasRows_root`); their sum is `Σ_{b∈tree} m_b (a_b − g)` (`mom_treeRate_vel`): internal joint forces
+  do not change the total linear momentum rate.
+* pipeline level, first tree: an exact solve with no force/damping/armature on the root's translational
+  dofs gives `Σ_{b∈tree 0} m_b (a_b − g) = 0` (`mom_root_balance`, `mom_step_root_balance`).
+* single free body: `lin3 qdd = g − α × ℓ − ω × (ω × ℓ)` (`free_body_qdd`); with the centre of mass at the
+  joint origin one `Gd.step` changes `v` by exactly `dt·g` and `p` by `dt·v'` (`free_body_step`), and
+  `v_n = v_0 + n·dt·g` for every horizon (`free_body_traj`) — momentum minus `m g t` conserved exactly.
+
+**Not proved** (kept visible):
+def momentum_limit_Stmt : Prop :=
+  ∀ (free-floating conservative generator model) (state) (horizon T),
+    ∃ C, ∀ dt small, ‖P(step_dt^(T/dt) state) − P(state) − M_tot·g·T‖ ≤ C · dt
+  where `P(q, qd) = (treeMom … qd …).vel = Σ_b m_b v_b`.  What is missing: at fixed `q` the one-step change
+  `P(q,qd') − P(q,qd) = dt·(M_tot g − Σ_b m_b·(velocity-product acceleration of b))` follows from
+  `mom_root_balance` and linearity of `treeMom` in `y` (not written out), and the `O(dt)` comparison of
+  `P(q',qd')` with `P(q,qd')` needs the derivative of `cinr`, `cdof` along `integrate` (the same Lagrangian
+  identity the energy clause lacks). -/
+namespace Brax.C12
+open Brax Kin Gd C05G C12M
+
+/-- rows `(ρ, 0..2)` of `mass.matrix · y` at a free root = linear momentum of the root's tree under joint
+velocity `y`, plus `armature · y`.  Hypotheses: parents precede children, array lengths agree, `ρ` is a root
+whose first three `cdof` rows are the world axes. -/
+theorem mom_massRows_root (ps : List Int) (cinr : List (Inertia ℝ)) (cdof : List (List (Motion ℝ)))
+    (arm N : List (List ℝ)) (ρ : Nat) (hps : ps.length = cdof.length) (hI : cinr.length = cdof.length)
+    (hwf : PWF ps) (hρ : RootOK ps cdof ρ) :
+    lin3 ((mvRows ps cinr cdof arm N).getD ρ [])
+      = (treeMom ps cinr cdof (fun a s => (N.getD a []).getD s 0) cdof.length ρ).vel
+        + ⟨armAt arm ρ 0 * (N.getD ρ []).getD 0 0, armAt arm ρ 1 * (N.getD ρ []).getD 1 0,
+           armAt arm ρ 2 * (N.getD ρ []).getD 2 0⟩ :=
+  massRows_root ps cinr cdof arm N ρ hps hI hwf hρ
+
+/-- `mvRows` really are the rows of `mass.matrix · y` (symmetric link inertias, `y` chunked like `cdof`) -/
+theorem mom_matVec_eq_mvRows (ps : List Int) (cinr : List (Inertia ℝ)) (cdof : List (List (Motion ℝ)))
+    (arm : List (List ℝ)) (N : List (List ℝ)) (hsym : ∀ x ∈ cinr, SymmI x)
+    (hN : N.length = cdof.length) (hw : ∀ l, l < N.length → (N.getD l []).length = wAt cdof l) :
+    matVec (massMatrix ps cinr cdof arm) N.flatten = (mvRows ps cinr cdof arm N).flatten :=
+  matVec_eq_mvRows ps cinr cdof arm N hsym hN hw
+
+/-- rows `(ρ, 0..2)` of `dynamics.inverse` at a free root = linear part of the Newton–Euler force of the
+root's whole tree -/
+theorem mom_biasRows_root (ps : List Int) (grav : V3 ℝ) (c : ComState ℝ) (qdN : List (List ℝ)) (ρ : Nat)
+    (hps : ps.length = c.cdof.length) (hI : c.cinr.length = c.cdof.length)
+    (hcd : c.cd.length = c.cdof.length) (hcdd : (invCdd ps grav c qdN).length = c.cdof.length)
+    (hwf : PWF ps) (hρ : RootOK ps c.cdof ρ) :
+    lin3 ((inverse ps grav c qdN).getD ρ [])
+      = (treeFrc ps c.cinr (invCdd ps grav c qdN) c.cd c.cdof.length ρ).vel :=
+  biasRows_root ps grav c qdN ρ hps hI hcd hcdd hwf hρ
+
+/-- **momentum balance at the root rows** (forest level) -/
+theorem mom_root_rows_balance (ps : List Int) (grav : V3 ℝ) (c : ComState ℝ) (arm N qdN : List (List ℝ))
+    (ρ : Nat) (hps : ps.length = c.cdof.length) (hI : c.cinr.length = c.cdof.length)
+    (hcd : c.cd.length = c.cdof.length) (hcdd : (invCdd ps grav c qdN).length = c.cdof.length)
+    (hwf : PWF ps) (hρ : RootOK ps c.cdof ρ) :
+    lin3 ((mvRows ps c.cinr c.cdof arm N).getD ρ []) + lin3 ((inverse ps grav c qdN).getD ρ [])
+      = ((treeMom ps c.cinr c.cdof (fun a s => (N.getD a []).getD s 0) c.cdof.length ρ).vel
+          + (treeFrc ps c.cinr (invCdd ps grav c qdN) c.cd c.cdof.length ρ).vel)
+        + ⟨armAt arm ρ 0 * (N.getD ρ []).getD 0 0, armAt arm ρ 1 * (N.getD ρ []).getD 1 0,
+           armAt arm ρ 2 * (N.getD ρ []).getD 2 0⟩ :=
+  root_rows_balance ps grav c arm N qdN ρ hps hI hcd hcdd hwf hρ
+
+/-- `treeMom.vel = Σ_{b ∈ tree ρ} m_b · (velocity of the centre of mass of b)` when `cinr_b.tf.pos = m_b r_b` -/
+theorem mom_treeMom_vel (ps : List Int) (cinr : List (Inertia ℝ)) (cdof : List (List (Motion ℝ)))
+    (Y : Nat → Nat → ℝ) (n ρ : Nat) (r : Nat → V3 ℝ)
+    (hr : ∀ b, b < n → (cinr.getD b dI).tf.pos = V3.smul (cinr.getD b dI).mass (r b)) :
+    (treeMom ps cinr cdof Y n ρ).vel
+      = vrsum n fun b => if inTree ps ρ b then
+          V3.smul (cinr.getD b dI).mass (pointVel (velAnc ps cdof Y b) (r b)) else V3.zero :=
+  treeMom_vel ps cinr cdof Y n ρ r hr
+
+/-- `treeMom(N).vel + treeFrc.vel = Σ_{b ∈ tree ρ} m_b (a_b − g)` -/
+theorem mom_treeRate_vel (ps : List Int) (cinr : List (Inertia ℝ)) (cdof : List (List (Motion ℝ)))
+    (cdd cd : List (Motion ℝ)) (Y : Nat → Nat → ℝ) (n ρ : Nat) (r : Nat → V3 ℝ)
+    (hr : ∀ b, b < n → (cinr.getD b dI).tf.pos = V3.smul (cinr.getD b dI).mass (r b)) :
+    (treeMom ps cinr cdof Y n ρ).vel + (treeFrc ps cinr cdd cd n ρ).vel
+      = vrsum n fun b => if inTree ps ρ b then
+          V3.smul (cinr.getD b dI).mass
+            (pointAcc (velAnc ps cdof Y b + cdd.getD b Motion.zero) (cd.getD b Motion.zero) (r b))
+          else V3.zero :=
+  treeRate_vel ps cinr cdof cdd cd Y n ρ r hr
+
+/-- **pipeline level, first tree**: exact solve + no force on the root's translational dofs ⇒
+`Σ_{b ∈ tree 0} m_b (a_b − g) = 0` -/
+theorem mom_root_balance {s : Sys ℝ} {q qd : List ℝ} (h : MomOK s q qd) (act qfc qdd : List ℝ)
+    (hqdd : qdd.length = s.nv) (hqfc : qfc.length = s.nv)
+    (htau : lin3 (toTau s.nv s.acts act q qd) = V3.zero) (hqfc0 : lin3 qfc = V3.zero)
+    (hex : matVec (dampedMatrix (dynInit s q qd).massMx (s.dofs.map (·.damping)) s.dt) qdd
+        = List.zipWith (· + ·) (qfSmooth s (dynInit s q qd) q qd act) qfc) :
+    (vrsum s.types.length fun b => if inTree s.parents 0 b then
+        V3.smul ((dynInit s q qd).com.cinr.getD b dI).mass
+          (pointAcc (velAnc s.parents (dynInit s q qd).com.cdof (qddN s qdd) b
+              + (stCdd s q qd).getD b Motion.zero)
+            ((dynInit s q qd).com.cd.getD b Motion.zero) (comOff s q qd b))
+        else V3.zero) = V3.zero :=
+  root_balance_physical h act qfc qdd hqdd hqfc htau hqfc0 hex
+
+/-- … for the accelerations `Gd.step` computes -/
+theorem mom_step_root_balance {s : Sys ℝ} {q qd : List ℝ} (h : MomOK s q qd)
+    (solve : List (List ℝ) → List ℝ → List ℝ) (act qfc : List ℝ) (hqfc : qfc.length = s.nv)
+    (htau : lin3 (toTau s.nv s.acts act q qd) = V3.zero) (hqfc0 : lin3 qfc = V3.zero)
+    (hlen : (Gd.step solve s (dynInit s q qd) q qd act qfc).1.2.2.length = s.nv)
+    (hex : matVec (dampedMatrix (dynInit s q qd).massMx (s.dofs.map (·.damping)) s.dt)
+        (Gd.step solve s (dynInit s q qd) q qd act qfc).1.2.2
+      = List.zipWith (· + ·) (qfSmooth s (dynInit s q qd) q qd act) qfc) :
+    (vrsum s.types.length fun b => if inTree s.parents 0 b then
+        V3.smul ((dynInit s q qd).com.cinr.getD b dI).mass
+          (pointAcc (velAnc s.parents (dynInit s q qd).com.cdof
+                (qddN s (Gd.step solve s (dynInit s q qd) q qd act qfc).1.2.2) b
+              + (stCdd s q qd).getD b Motion.zero)
+            ((dynInit s q qd).com.cd.getD b Motion.zero) (comOff s q qd b))
+        else V3.zero) = V3.zero :=
+  step_root_balance h solve act qfc hqfc htau hqfc0 hlen hex
+
+/-- **single free body**: the translational acceleration the exact solve returns is
+`g − α × ℓ − ω × (ω × ℓ)` (`ℓ` = offset of the centre of mass from the joint origin, `α`, `ω` the world
+angular acceleration / velocity) — any orientation, angular velocity, inertia tensor -/
+theorem free_body_qdd {s : Sys ℝ} {q qd : List ℝ} (h : MomOK s q qd) (hone : s.types.length = 1)
+    (hm : ∀ lk ∈ s.links, lk.inertia.mass ≠ 0) (act qfc qdd : List ℝ)
+    (hqdd : qdd.length = s.nv) (hqfc : qfc.length = s.nv)
+    (htau : lin3 (toTau s.nv s.acts act q qd) = V3.zero) (hqfc0 : lin3 qfc = V3.zero)
+    (hex : matVec (dampedMatrix (dynInit s q qd).massMx (s.dofs.map (·.damping)) s.dt) qdd
+        = List.zipWith (· + ·) (qfSmooth s (dynInit s q qd) q qd act) qfc) :
+    lin3 qdd - s.gravity + V3.cross (bodyAng s q qd qdd) (comArm s q qd)
+      + V3.cross (bodyAng s q qd qd) (V3.cross (bodyAng s q qd qd) (comArm s q qd)) = V3.zero :=
+  C12M.free_body_qdd h hone hm act qfc qdd hqdd hqfc htau hqfc0 hex
+
+/-- **single free body, one `Gd.step`**: `v' = v + dt·g` and `p' = p + dt·v'`, exactly -/
+theorem free_body_step {s : Sys ℝ} {q qd : List ℝ} (h : MomOK s q qd) (hone : s.types.length = 1)
+    (hm : ∀ lk ∈ s.links, lk.inertia.mass ≠ 0) (solve : List (List ℝ) → List ℝ → List ℝ) (act qfc : List ℝ)
+    (hqfc : qfc.length = s.nv)
+    (htau : lin3 (toTau s.nv s.acts act q qd) = V3.zero) (hqfc0 : lin3 qfc = V3.zero)
+    (hlen : (Gd.step solve s (dynInit s q qd) q qd act qfc).1.2.2.length = s.nv)
+    (hex : matVec (dampedMatrix (dynInit s q qd).massMx (s.dofs.map (·.damping)) s.dt)
+        (Gd.step solve s (dynInit s q qd) q qd act qfc).1.2.2
+      = List.zipWith (· + ·) (qfSmooth s (dynInit s q qd) q qd act) qfc)
+    (harm : comArm s q qd = V3.zero) :
+    lin3 (Gd.step solve s (dynInit s q qd) q qd act qfc).1.2.1 = lin3 qd + V3.smul s.dt s.gravity
+    ∧ lin3 (Gd.step solve s (dynInit s q qd) q qd act qfc).1.1
+        = lin3 q + V3.smul s.dt (lin3 (Gd.step solve s (dynInit s q qd) q qd act qfc).1.2.1) :=
+  C12M.free_body_step h hone hm solve act qfc hqfc htau hqfc0 hlen hex harm
+
+/-- **single free body, every horizon**: `v_n = v_0 + n·dt·g` — momentum minus `m g t` is conserved exactly -/
+theorem free_body_traj (solve : List (List ℝ) → List ℝ → List ℝ) (s : Sys ℝ) (act qfc : List ℝ)
+    (hone : s.types.length = 1) (hm : ∀ lk ∈ s.links, lk.inertia.mass ≠ 0)
+    (hqfc : qfc.length = s.nv) (hqfc0 : lin3 qfc = V3.zero) (x : List ℝ × List ℝ) (n : Nat)
+    (hok : ∀ k, k < n → FreeStepOK solve s act qfc (traj solve s act qfc k x).1 (traj solve s act qfc k x).2) :
+    lin3 (traj solve s act qfc n x).2 = lin3 x.2 + V3.smul ((n : ℝ) * s.dt) s.gravity :=
+  C12M.free_body_traj solve s act qfc hone hm hqfc hqfc0 x n hok
+
+/-- `comArm = 0` in every state for a body with cleared link/joint transforms and inertial frame at the origin -/
+theorem free_body_comArm_zero {s : Sys ℝ} {q qd : List ℝ} (h : MomOK s q qd) (lk : LinkP ℝ)
+    (rest : List (LinkP ℝ)) (hlinks : s.links = lk :: rest)
+    (h1 : lk.tf = Tf.id) (h2 : lk.joint = Tf.id) (h3 : lk.inertia.tf.pos = V3.zero) :
+    comArm s q qd = V3.zero :=
+  comArm_zero h lk rest hlinks h1 h2 h3
+
+/-! ### non-vacuity -/
+
+/-- forest-level hypotheses: free root + one child, `RootOK` at the root -/
+example : PWF [-1, 0] ∧ RootOK [-1, 0] [[Ex, Ey, Ez, Ex, Ey, Ez], [Ez]] 0 := by
+  refine ⟨?_, ?_, by simp, ⟨Ex, Ey, Ez, rfl⟩⟩
+  · intro i
+    rcases i with _ | _ | i
+    · simp
+    · simp
+    · simp only [List.getD_cons_succ, List.getD_nil]; omega
+  · simp
+
+/-- a single free body: unit mass, unit inertia about its centre of mass, identity link/joint/inertial
+frames, no damping, no armature, no actuator -/
+noncomputable def momLink : LinkP ℝ := ⟨Tf.id, Tf.id, ⟨Tf.id, M3.one, 1⟩, 1, 100, 1, 100, 1⟩
+noncomputable def momDof (ang vel : V3 ℝ) : DofP ℝ := ⟨⟨ang, vel⟩, 0, 0, 0, none, none, 1⟩
+noncomputable def momSys : Sys ℝ :=
+  { types := [.free], parents := [-1], links := [momLink],
+    dofs := [momDof ⟨0, 0, 0⟩ ⟨1, 0, 0⟩, momDof ⟨0, 0, 0⟩ ⟨0, 1, 0⟩, momDof ⟨0, 0, 0⟩ ⟨0, 0, 1⟩,
+             momDof ⟨1, 0, 0⟩ ⟨0, 0, 0⟩, momDof ⟨0, 1, 0⟩ ⟨0, 0, 0⟩, momDof ⟨0, 0, 1⟩ ⟨0, 0, 0⟩],
+    hasLimit := false, acts := [],
+    gravity := ⟨0, 0, -9.81⟩, dt := 0.01, velDamping := 0, angDamping := 0, baumgarteErp := 0.1,
+    springMassScale := 0, springInertiaScale := 0, jointScaleAng := 0.2, jointScalePos := 0.5,
+    collideScale := 1 }
+
+/-- the hypotheses of `free_body_qdd` / `free_body_step` on the system and the state hold for `momSys` in a
+tumbling state (`MomOK`, one link, nonzero mass, no actuator force, `comArm = 0`) -/
+example (act : List ℝ) :
+    let q : List ℝ := [0, 0, 1, 1, 0, 0, 0]
+    let qd : List ℝ := [1, 0, 0, 0.3, 0, 0.5]
+    MomOK momSys q qd ∧ momSys.types.length = 1 ∧ (∀ lk ∈ momSys.links, lk.inertia.mass ≠ 0)
+    ∧ lin3 (toTau momSys.nv momSys.acts act q qd) = V3.zero ∧ comArm momSys q qd = V3.zero := by
+  intro q qd
+  have hslice : linkSlices momSys.types q qd momSys.dofs = [⟨.free, q, qd, momSys.dofs⟩] := by
+    simp [momSys, linkSlices, LinkType.qWidth, LinkType.qdWidth, q, qd]
+  have hlinkok : ∀ x ∈ momSys.parents.zip (momSys.links.zip (linkSlices momSys.types q qd momSys.dofs)),
+      KinPos.LinkOK x.1 x.2.1 x.2.2 := by
+    intro x hx
+    rw [hslice] at hx
+    simp only [momSys, List.zip_cons_cons, List.zip_nil_right, List.mem_singleton] at hx
+    subst hx
+    refine ⟨?_, rfl, ?_, ?_⟩
+    · simp [momLink, Tf.id, Q4.IsUnit, Q4.normSq, Q4.one]
+    · intro _
+      refine ⟨by norm_num, rfl, rfl, by simp [qd], 0, 0, 1, 1, 0, 0, 0, by simp [q], ?_⟩
+      simp [Q4.IsUnit, Q4.normSq]
+    · intro h; simp at h
+  have hexists : ∀ l ∈ linkSlices momSys.types q qd momSys.dofs, l = ⟨.free, q, qd, momSys.dofs⟩ := by
+    intro l hl; rw [hslice] at hl; simpa using hl
+  have hfull : Full momSys q qd := ⟨rfl, rfl, rfl⟩
+  have hpar : ∀ i (h : i < momSys.parents.length), -1 ≤ momSys.parents[i] ∧ momSys.parents[i] < (i : Int) := by
+    intro i hi
+    have hi' : i < 1 := hi
+    match i, hi' with
+    | 0, _ => simp [momSys]
+  have hroot : ∀ i (h : i < momSys.parents.length) (h' : i < momSys.types.length),
+      momSys.parents[i] < 0 → momSys.types[i] = .free := by
+    intro i hi _ _
+    have hi' : i < 1 := hi
+    match i, hi' with
+    | 0, _ => simp [momSys]
+  have hbasis : ∀ l ∈ linkSlices momSys.types q qd momSys.dofs, l.typ = .free →
+      l.dofs.map (·.motion) = freeBasis := by
+    intro l hl _; rw [hexists l hl]; simp [momSys, momDof, freeBasis, V3.zero]
+  have hmass : ∀ r ∈ rootIdx momSys.parents,
+      segSum 0 (· + ·) (momSys.links.map (·.inertia.mass)) (rootIdx momSys.parents) r ≠ 0 := by
+    intro r hr
+    simp [momSys, rootIdx, scanFwd] at hr
+    subst hr
+    simp [momSys, rootIdx, scanFwd, segSum, momLink]
+  have hirot : ∀ lk ∈ momSys.links, Q4.normSq lk.inertia.tf.rot ≠ 0 := by
+    intro lk hlk
+    simp [momSys] at hlk
+    subst hlk
+    simp [momLink, Tf.id, Q4.normSq, Q4.one]
+  have hmom : MomOK momSys q qd :=
+    { full := hfull
+      ok := GenOK.of_linkOK momSys q qd rfl rfl hpar hroot hlinkok hbasis hmass hirot
+      pos := by simp [momSys]
+      symm := by
+        intro lk hlk
+        simp [momSys] at hlk
+        subst hlk
+        simp [SymmI, momLink, M3.one]
+      damp0 := by simp [momSys, momDof, lin3, V3.zero]
+      arm0 := by simp [momSys, momDof, lin3, V3.zero] }
+  refine ⟨hmom, rfl, ?_, ?_, ?_⟩
+  · intro lk hlk
+    simp [momSys] at hlk
+    subst hlk
+    simp [momLink]
+  · simp [momSys, toTau, lin3, Sys.nv, LinkType.qdWidth, V3.zero]
+  · exact comArm_zero hmom momLink [] rfl rfl rfl rfl
 
 end Brax.C12
